@@ -28,6 +28,7 @@ package controller
 //@   ensures clock >= old(clock)
 //@   ensures [C02] sat64(old(clock) - l.lockTime) >= l.minimumLockDuration ==> !r && !l.isLocked
 //@   ensures [C02] r ==> sat64(old(clock) - l.lockTime) < l.minimumLockDuration
+//@   ensures [C02] sat64(clock - l.lockTime) < l.minimumLockDuration ==> r
 //@   ensures !r ==> !l.isLocked
 //@   ensures r ==> l.isLocked == old(l.isLocked) && l.requestedNodes == old(l.requestedNodes)
 
